@@ -237,6 +237,11 @@ pub trait Front {
     /// Installs a session on the live device where the front-end offers that (`nb_device::Device::set_session`);
     /// false = this front-end has no such call (async: sessions are only accepted by the constructor).
     fn set_session(&mut self, session: &Value) -> Result<bool, String>;
+    /// nb: `get_session()` and `set_session()` with that same session (cloned, or through its serialised
+    /// form); Ok(false) where the front-end has no such call or there is no session
+    fn hand_back(&mut self, _via_serde: bool) -> Result<bool, String> {
+        Ok(false)
+    }
 }
 
 /// `Uplink::overflowed` is transient by design (cleared before it is read again): masked.
@@ -833,6 +838,24 @@ impl<const P: u8, const G: i8, const N: usize, const D: usize> Front for NbFront
         self.env.begin_call();
         catch(|| self.dev.set_session(s)).map_err(|p| format!("panic in set_session: {p}"))?;
         Ok(true)
+    }
+    fn hand_back(&mut self, via_serde: bool) -> Result<bool, String> {
+        self.env.begin_call();
+        let r = catch(|| -> Result<bool, String> {
+            let Some(s) = self.dev.get_session().cloned() else { return Ok(false) };
+            let s = if via_serde {
+                let text = serde_json::to_string(&s).map_err(|e| format!("session does not serialise: {e}"))?;
+                serde_json::from_str::<Session>(&text).map_err(|e| format!("the device's own session document is refused: {e}"))?
+            } else {
+                s
+            };
+            self.dev.set_session(s);
+            Ok(true)
+        });
+        match r {
+            Ok(x) => x,
+            Err(p) => Err(format!("panic in get_session/set_session: {p}")),
+        }
     }
 }
 
